@@ -54,12 +54,13 @@ Proof. exact setop_arity. Qed.
 Print Assumptions c07_setop_arity.
 
 (* a table named in the FROM list of the j-th CTE of a WITH list is a relation of the enclosing environment, an
-   EARLIER CTE of the list, or -- under WITH RECURSIVE -- the CTE itself; never a later one *)
+   EARLIER CTE of the list, or -- under WITH RECURSIVE, or in a dialect where recursion is implicit (T-SQL) -- the CTE itself;
+   never a later one *)
 Theorem c07_cte_order : forall P te rc cs body ord lim,
   well_scoped P te (Query rc cs body ord lim) = OK ->
   forall pre n q post, ctes_list cs = pre ++ (n, q) :: post ->
   forall m, In m (dt_query q) ->
-    m = 0 \/ In m (map te_name te) \/ In m (map fst pre) \/ (rc = true /\ m = n).
+    m = 0 \/ In m (map te_name te) \/ In m (map fst pre) \/ (recv P rc = true /\ m = n).
 Proof. exact cte_order. Qed.
 Print Assumptions c07_cte_order.
 
